@@ -204,4 +204,21 @@ theorem freshLoop_items (cfg : FreshCfg) (inv : Nat) (items : List (Line × (Lis
       rw [hd]; simp
     · simp only [List.map_cons, freshExpected, hdms, hms, DP.empty, List.nil_append]
 
+/-- groups that consist of one total line each -/
+theorem groupsExpected_totals (cfg : Cfg) (inv : Nat) (xs : List (Line × (List Char × Val)))
+    (h : ∀ x ∈ xs, cfg.classify x.1 = some { pre := [], main := { criterion := totalName, unit := x.2.1, value := x.2.2 } }) :
+    ∀ i, groupsExpected cfg inv i (xs.map (fun x => (([] : List Line), x.1))) =
+      freshExpected inv i (xs.map (·.2)) := by
+  induction xs with
+  | nil => intro i; rfl
+  | cons x xs ih =>
+    intro i
+    have hx := h x (by simp)
+    obtain ⟨l, u, v⟩ := x
+    simp only at hx
+    simp only [List.map_cons, groupsExpected, Group.lines, List.nil_append, List.flatMap_cons, List.flatMap_nil,
+      List.append_nil, lineMeas, hx, List.map_nil, freshExpected]
+    rw [ih (fun y hy => h y (by simp [hy])) (i + 1)]
+    rfl
+
 end RB.Adapters
